@@ -130,3 +130,5 @@ func (s *listSrc) Pick(label string, options ...string) string {
 	}
 	panic(scriptMismatch{fmt.Sprintf("%s=%q not among %v", label, v, options)})
 }
+
+func (m scriptMismatch) Error() string { return "script mismatch: " + m.msg }
